@@ -1,6 +1,7 @@
 package props
 
 import (
+	"regexp"
 	"encoding/json"
 	"fmt"
 	"math/big"
@@ -159,6 +160,45 @@ func c13GapIndex(parts []yang.Interval) int {
 	return -1
 }
 
+var c13NumTok = regexp.MustCompile(`-?[0-9]+(\.[0-9]+)?`)
+
+// c13BadBoundary rewrites one boundary of a range / length argument into a spelling that Go's number
+// parsers take but the YANG grammar (integer-value / decimal-value) does not.
+func c13BadBoundary(r *core.Rng, arg, kind string) (string, bool) {
+	locs := c13NumTok.FindAllStringIndex(arg, -1)
+	if len(locs) == 0 {
+		return "", false
+	}
+	loc := locs[r.Intn(len(locs))]
+	t := arg[loc[0]:loc[1]]
+	neg := strings.HasPrefix(t, "-")
+	var alts []string
+	if kind == "decimal64" {
+		alts = []string{t + "e0", "NaN", "Inf", "0x1p2"}
+		if !neg {
+			alts = append(alts, "+"+t)
+		}
+		if !strings.Contains(t, ".") {
+			alts = append(alts, t+".")
+		} else if strings.HasPrefix(t, "0.") {
+			alts = append(alts, t[1:])
+		}
+	} else {
+		if !neg {
+			alts = append(alts, "+"+t, "0"+t)
+			if v, ok := new(big.Int).SetString(t, 10); ok {
+				alts = append(alts, "0x"+v.Text(16), "0o"+v.Text(8), "0b"+v.Text(2))
+			}
+		} else {
+			alts = append(alts, "-0"+t[1:])
+		}
+		if len(t) >= 2 && !neg {
+			alts = append(alts, t[:1]+"_"+t[1:])
+		}
+	}
+	return arg[:loc[0]] + core.Pick(r, alts) + arg[loc[1]:], true
+}
+
 var c13ProbeStrings = []string{"", "a", "z", "abc", "az", "a1", "ab", "abab", "cd", "ABC", "aaaaaaaaaaaa", "zzzz", "a z", "9", "abz", "q"}
 
 func c13Gen(seed int64, idx int) *c13Chain {
@@ -190,7 +230,7 @@ func c13Gen(seed int64, idx int) *c13Chain {
 	nlev := r.Range(1, 5)
 	inject := ""
 	if r.Chance(2, 5) {
-		inject = core.Pick(r, []string{"not-subset", "unordered", "overlap", "reversed", "wrong-kind", "default-outside", "not-subset", "default-outside"})
+		inject = core.Pick(r, []string{"not-subset", "unordered", "overlap", "reversed", "wrong-kind", "default-outside", "not-subset", "default-outside", "boundary-syntax"})
 	}
 	injectAt := r.Intn(nlev)
 	numeric := ch.kind == "int" || ch.kind == "uint" || ch.kind == "decimal64"
@@ -300,6 +340,11 @@ func c13Gen(seed int64, idx int) *c13Chain {
 					baseMin, baseMax = nil, nil
 				}
 				L.rangeArg = yang.RangeArg(parts, ch.fd, baseMin, baseMax, func() bool { return (ch.defect == "" || kwInDefect) && kw() })
+				if defectHere && inject == "boundary-syntax" && ch.defect == "" {
+					if a, ok := c13BadBoundary(r, L.rangeArg, ch.kind); ok {
+						L.rangeArg, ch.defect = a, "boundary-syntax"
+					}
+				}
 				if ch.defect == "" {
 					cur = parts
 					trueSet = parts
@@ -372,6 +417,11 @@ func c13Gen(seed int64, idx int) *c13Chain {
 					}
 				}
 				L.lengthArg = yang.RangeArg(parts, 0, baseMin, baseMax, func() bool { return (ch.defect == "" || kwInDefect) && kw() })
+				if defectHere && inject == "boundary-syntax" && ch.defect == "" {
+					if a, ok := c13BadBoundary(r, L.lengthArg, "length"); ok {
+						L.lengthArg, ch.defect = a, "boundary-syntax"
+					}
+				}
 				if ch.defect == "" {
 					curLens = parts
 					lensRestricted = true
@@ -675,7 +725,11 @@ func (p *c13) Run(tier string, seed int64, idx int) core.CaseResult {
 		return res
 	}
 	if cr.ParseErr != "" {
-		res.Fail("harness-panic", input, "parse: "+cr.ParseErr)
+		// the parser refusing the restriction argument is a refusal of the chain
+		res.Ev("chains_refused_by_the_parser", 1)
+		if ch.defect == "" {
+			res.Fail("C13/valid-chain-rejected/"+ch.kind, input, "parse: "+cr.ParseErr)
+		}
 		return res
 	}
 	if ch.defect != "" {
